@@ -2569,6 +2569,12 @@ class RedunBackendDb(RedunBackend):
             for parent_handle in parent_handles
             if parent_handle.__handle__.fork_parent and not parent_handle.__handle__.is_recorded
         ]
+        # The skipped fork edges are part of the lineage too (a rollback must reach the forks).
+        fork_edges = [
+            (parent_handle.__handle__.fork_parent, parent_handle)
+            for parent_handle in parent_handles
+            if parent_handle.__handle__.fork_parent and not parent_handle.__handle__.is_recorded
+        ]
         while queue:
             _handle = queue.pop()
             get_or_create(
@@ -2585,6 +2591,7 @@ class RedunBackendDb(RedunBackend):
             _handle.__handle__.is_recorded = True
             if _handle.__handle__.fork_parent:
                 queue.append(_handle.__handle__.fork_parent)
+                fork_edges.append((_handle.__handle__.fork_parent, _handle))
 
         # Get or create child_handle.
         child_row, _ = get_or_create(
@@ -2623,6 +2630,13 @@ class RedunBackendDb(RedunBackend):
                     "parent_id": parent_handle.__handle__.hash,
                     "child_id": child_handle.__handle__.hash,
                 },
+            )
+
+        for fork_parent, fork in fork_edges:
+            get_or_create(
+                self.session,
+                HandleEdge,
+                {"parent_id": fork_parent.__handle__.hash, "child_id": fork.__handle__.hash},
             )
 
         self.session.commit()
